@@ -264,6 +264,8 @@ def _sibling_set_status(sd: ast.AST, tree_p: str, deme_v: str, selfn: str, want_
     elif isinstance(e, (ast.ListComp, ast.GeneratorExp)):
         return INCONCLUSIVE, f"sibling set `{norm(sd)[:70]}` has an unrecognised shape"
     # the level the siblings live on
+    if canon(it) in (f"{deme_v}.children", f"{deme_v}._children"):
+        return VIOLATION, f"siblings are taken from `{norm(it)}`, the candidate's own parent's children only: active demes of the target level that were sprouted by other parents are not compared with"
     if not (isinstance(it, ast.Subscript) and norm(it.value) in (f"{tree_p}.levels", f"{tree_p}._levels")):
         return INCONCLUSIVE, f"cannot tell which demes `{norm(sd)[:70]}` ranges over"
     lvl = canon(it.slice)
@@ -453,6 +455,11 @@ def _far_enough_filter(ctx: Ctx, cls_name: str, helper_name: str, want_filter: s
             obs.append(ctx.ob("R09.3", f, f.node, status=INCONCLUSIVE, detail=f"{cls_name}: found no loop over siblings that filters candidates", construct="sibling-loop"))
     elif hits > 1:
         obs.append(ctx.ob("R09.3", f, f.node, status=INCONCLUSIVE, detail=f"{cls_name}: found {hits} sibling loops that filter candidates (expected 1)", construct="sibling-loop"))
+    # a list must not be modified while it is being iterated (elements after a removed one are skipped)
+    for lp in [x for x in ast.walk(outer[0]) if isinstance(x, ast.For) and isinstance(x.iter, ast.Name)]:
+        for c in ast.walk(lp):
+            if isinstance(c, ast.Call) and isinstance(c.func, ast.Attribute) and c.func.attr in ("remove", "pop", "insert", "append", "clear") and isinstance(c.func.value, ast.Name) and c.func.value.id == lp.iter.id:
+                obs.append(ctx.ob("R09.3", f, c, status=VIOLATION, detail=f"{cls_name}: `{norm(c)}` modifies `{lp.iter.id}` while the loop iterates over it: the element following a removed one is never tested, so a candidate closer than the threshold can survive", construct="mutate-while-iterating"))
     # (d) the predicate helper: strict `>` against the threshold
     h = ci.methods.get(helper_name)
     if h is None:
